@@ -1,5 +1,7 @@
 """C10 — No call-breaking signature change goes unreported.
 
+(T) Gen/C10_guards.v: the path condition of every parameter-breakage `yield` of _function_incompatibilities, translated; the
+    extracted model runs the rules written over them (fdiff_code, proved = fdiff_m)
 (T) Gen/C10_tables.v + Gen/C10_rules.v regenerated from diff.py / expressions.py (kind sets, `swallowed`,
     `incompatible_kind`, old-side members of it, skeleton shape, ExprFormatted fields)
 (C) model fdiff_m (parameter rules + default equality by the implementation's key)
@@ -42,8 +44,9 @@ LEVEL_TEXT = ("Theorems over all signatures and all calls (any number of positio
               "exhaustive <=2-parameter sweep, random <=5-parameter pairs and a default-expression grammar, the binder model to real CPython calls.")
 LEVEL_NOTE = ("Trusted: Coq kernel, extraction, translator harness/translate/c10_tables.py, the harness abstraction source text -> model signature "
               "(python ast -> tree with interned tags; checked injective against ast.dump on every pair), CPython calls / ast / eval as authority. "
-              "Return-annotation and non-parameter breakages are outside this property. The three non-kind rules (required, moved, default guard) "
-              "are modelled by hand (their `if` tests are shape-checked by the translator, not translated). Defaults of inspected (non-visited) "
+              "Return-annotation and non-parameter breakages are outside this property. The path conditions of all six parameter rules are "
+              "translated from diff.py (Gen/C10_guards.v) and proved equal to the documented rules; loops, helper assignments and the exception "
+              "handler of the default comparison are shape-checked only. Excuse exactness is proved for required/added reports only. Defaults of inspected (non-visited) "
               "objects are plain strings and are not generated. The correspondence uses calls with at most 5 positionals (theorems: unbounded).")
 MODEL = ("Model.C10_code", "run_C10")
 COQ_TARGETS = ["Proofs/C10_diff.vo", "Proofs/C10_complete.vo", "Proofs/C10_sound.vo", "Proofs/C10_rule.vo", "Proofs/C10_defaults.vo", "Proofs/C10_hist.vo", "Proofs/C10_code.vo", "Proofs/C10_exact.vo"]
